@@ -45,10 +45,13 @@ def native_run(h, tests, release=False):
             cmd += ["--features", ",".join(feats)]
         if release:
             cmd += ["--release"]
-        cmd += ["--", "kani_concrete_playback_", "--test-threads", "1"]
-        r = subprocess.run(cmd, cwd=cdir, env=ENV, stdout=subprocess.PIPE, stderr=subprocess.STDOUT, text=True,
-                           timeout=1800)
-        out = r.stdout
+        # one process per test: the harnesses keep their bookkeeping in statics, which a Kani run starts fresh
+        # for every harness but a native test binary shares between the tests of one process
+        out = ""
+        for (_k, _d, n, _s) in tests:
+            r = subprocess.run(cmd + ["--", n, "--test-threads", "1"], cwd=cdir, env=ENV, stdout=subprocess.PIPE,
+                               stderr=subprocess.STDOUT, text=True, timeout=1800)
+            out += r.stdout + "\n"
     finally:
         open(mf, "w").write(orig)
     res = {}
